@@ -326,6 +326,44 @@ def Ty.deref : Ty → Ty
   | .ptr t => t.deref
   | t => t
 
+/-- an Accepted codec that is neither a map nor (a pointer to) a
+`ProtoSliceWrapper` is not a repeated form behind its pointers: a pointer's
+target is never a map, and `isProtoSlice` looks through pointers. -/
+theorem deref_not_protoRep_of_wf : (t : Ty) → t.wf → t.isMap = false → t.isProtoSlice = false →
+    t.deref.isProtoRep = false
+  | .ptr t => by
+      intro hwf _ hp
+      simp only [Ty.wf] at hwf
+      simp only [Ty.isProtoSlice] at hp
+      simp only [Ty.deref]
+      exact deref_not_protoRep_of_wf t hwf.1 hwf.2 hp
+  | .pslice _ => by intro _ _ hp; simp [Ty.isProtoSlice] at hp
+  | .map _ _ _ => by intro _ hm; simp [Ty.isMap] at hm
+  | .bool | .int _ | .uint _ | .flat _ | .f32 | .f64 | .str _ | .bytes | .time _ | .vslice _ | .fslice _
+  | .lslice _ | .struct _ _ => by intro _ _ _; simp [Ty.deref, Ty.isProtoRep]
+
+/-- the element of an Accepted `ProtoSliceWrapper` is not a repeated form, directly
+or behind pointers (the builder's `isProtoSlice` check). -/
+theorem wf_pslice_elem_not_protoRep {t : Ty} (h : (Ty.pslice t).wf) : t.deref.isProtoRep = false := by
+  simp only [Ty.wf] at h
+  exact deref_not_protoRep_of_wf t h.1 h.2.2.1 h.2.2.2
+
+/-- likewise for the element of an Accepted `WTLengthSliceWrapper`. -/
+theorem wf_lslice_elem_not_protoRep {t : Ty} (h : (Ty.lslice t).wf) : t.deref.isProtoRep = false := by
+  simp only [Ty.wf] at h
+  exact deref_not_protoRep_of_wf t h.1 h.2.2.1 h.2.2.2
+
+/-- likewise for the value and the key of an Accepted map codec. -/
+theorem wf_map_value_not_protoRep {k v : Ty} {p : Bool} (h : (Ty.map k v p).wf) :
+    v.deref.isProtoRep = false := by
+  simp only [Ty.wf] at h
+  exact deref_not_protoRep_of_wf v h.2.1 h.2.2.2.1 h.2.2.2.2.1
+
+theorem wf_map_key_not_protoRep {k v : Ty} {p : Bool} (h : (Ty.map k v p).wf) :
+    k.deref.isProtoRep = false := by
+  simp only [Ty.wf] at h
+  exact deref_not_protoRep_of_wf k h.1 h.2.2.1 h.2.2.2.2.2
+
 theorem appendVarUint_zero : appendVarUint 0 = [0] := by
   rw [appendVarUint]; simp
 
